@@ -1384,6 +1384,119 @@ example : ([1] : List Nat).contains 1 = true ∧
   grammar_retry_greedy_on xLawsOn true ⟨.fin 0, 40, .fin 1, .fin 0, true⟩ (.fin 0) [X.fin 5, .fin 2, .pinf] [1] 1
     (by decide) (by decide) (by rfl) ⟨.fin 2, by decide, by decide⟩
 
+/-! ### round 7: the admissibility clauses do not depend on HOW the top-k stage orders equal logits
+
+  Go sorts with `slices.SortFunc` (pdqsort, unstable beyond 12 elements); the model sorts stably.  The
+  two can differ in the order of tokens with EQUAL logits (the harness compares modulo that order).
+  `SampleWith tk` is `Sample` with the top-k stage replaced by an arbitrary function `tk`.  Whatever
+  `tk` is — pdqsort, the heap, the model's merge sort — as long as its output on this input is a
+  correct top-k (`IsTopK`: the decidable contract `c=` that the `topk` op evaluates on the REAL
+  `topK` output of every sampled call), every admissibility clause holds.  Only WHICH of several
+  equal logits is returned (a reproducibility question) depends on it. -/
+
+def sampleCoreWith (o : Ops α) (tk : List (Tok α) → List (Tok α)) (fix : Bool) (P : Params α) (r : α)
+    (ts : List (Tok α)) : Except Err (Tok α) :=
+  if o.beq P.temp o.zero then
+    match greedy o ts with
+    | .ok t => if P.greedyErr && o.beq t.val o.negInf then .error .allNegInf else .ok t
+    | .error e => .error e
+  else afterTopK o fix P r (tk ts)
+
+def SampleWith (o : Ops α) (tk : List (Tok α) → List (Tok α)) (fix : Bool) (P : Params α) (r : α)
+    (logits : List α) : Except Err Nat :=
+  match logits with
+  | [] => .error .noLogits
+  | _ => (sampleCoreWith o tk fix P r (mkTokens logits)).map (·.id)
+
+/-- the model is the instance `tk = topK o P.topK` -/
+theorem SampleWith_topK (o : Ops α) (fix : Bool) (P : Params α) (r : α) (logits : List α) :
+    SampleWith o (topK o P.topK) fix P r logits = Sample o fix P r logits := rfl
+
+/-- **any correct top-k stage**: temperature > 0, both variants.  If the stage's output on this input
+    satisfies `IsTopK` (and `<` is irreflexive on the kept values — true of non-NaN floats), then a
+    returned id is in range, fewer than `k` logits are strictly larger, and (repaired variant) under
+    the run's contracts its logit is not `-Inf` and it is the id of a member of the filter set. -/
+theorem sampleWith_admissible (o : Ops α) (tk : List (Tok α) → List (Tok α)) (fix : Bool) (P : Params α)
+    (r : α) (logits : List α) (id : Nat) (ht : o.beq P.temp o.zero = false)
+    (htk : IsTopK o P.topK (mkTokens logits) (tk (mkTokens logits)))
+    (hirr : ∀ y ∈ tk (mkTokens logits), o.lt y.val y.val = false)
+    (hS : SampleWith o tk fix P r logits = .ok id) :
+    id < logits.length ∧
+    ∃ v, logits[id]? = some v ∧
+      ((mkTokens logits).filter (fun x => o.lt v x.val)).length <
+        (if P.topK ≥ (logits.length : Int) ∨ P.topK ≤ 0 then logits.length else P.topK.toNat) := by
+  have hc : ∃ t, afterTopK o fix P r (tk (mkTokens logits)) = .ok t ∧ t.id = id := by
+    unfold SampleWith at hS
+    split at hS
+    · cases hS
+    · simp only [sampleCoreWith, ht, Bool.false_eq_true, if_false] at hS
+      cases hc : afterTopK o fix P r (tk (mkTokens logits)) with
+      | error e => rw [hc] at hS; cases hS
+      | ok t =>
+        rw [hc] at hS
+        simp only [Except.map] at hS
+        injection hS with hS
+        exact ⟨t, rfl, hS⟩
+  obtain ⟨t, hc, hid⟩ := hc
+  obtain ⟨y, hy, hyid⟩ := afterTopK_id_any o fix P r _ t hc
+  have hym := htk.mem y hy
+  have hget := mkTokens_mem logits y hym
+  have hcount := isTopK_count htk y hy (hirr y hy)
+  have hlen : (mkTokens logits).length = logits.length := by
+    have := congrArg List.length (mkTokensFrom_vals 0 logits)
+    simpa [mkTokens] using this
+  rw [htk.len, hlen] at hcount
+  have hget' : logits[id]? = some y.val := by rw [← hid, ← hyid]; exact hget
+  exact ⟨(List.getElem?_eq_some_iff.1 hget').1, y.val, hget', hcount⟩
+
+/-- the weighted clauses for any correct top-k stage (repaired variant, IEEE-like carrier) -/
+theorem sampleWith_admissible_fixed_on {o : Ops α} (h : OrdLawsOn o) (ha : ArithLawsOn o) (hb : BeqLawOn o)
+    (tk : List (Tok α) → List (Tok α)) (P : Params α) (r : α) (logits : List α) (id : Nat)
+    (ht : o.beq P.temp o.zero = false)
+    (hmem : ∀ y ∈ tk (mkTokens logits), y ∈ mkTokens logits)
+    (hS : SampleWith o tk true P r logits = .ok id) :
+    ∃ L1, shiftMax o (tk (mkTokens logits)) = .ok L1 ∧
+    (runGood o P r L1 = true →
+     guardOK o (scaledOf o P L1) = true →
+     scaleOK o ((tk (mkTokens logits)).map (·.val)) (L1.map (·.val)) = true →
+     scaleOK o (L1.map (·.val)) (scaledOf o P L1) = true →
+     softmaxOK o (scaledOf o P L1) (softmaxVals o (scaledOf o P L1)) = true →
+     (∃ v, logits[id]? = some v ∧ o.beq v o.negInf = false) ∧
+     ∃ f, minP o P.minP (topP o P.topP (probsOf o P L1)) = .ok f ∧ f <+: probsOf o P L1 ∧
+       ∃ x ∈ f, x.id = id) := by
+  have hc : ∃ t, afterTopK o true P r (tk (mkTokens logits)) = .ok t ∧ t.id = id := by
+    unfold SampleWith at hS
+    split at hS
+    · cases hS
+    · simp only [sampleCoreWith, ht, Bool.false_eq_true, if_false] at hS
+      cases hc : afterTopK o true P r (tk (mkTokens logits)) with
+      | error e => rw [hc] at hS; cases hS
+      | ok t =>
+        rw [hc] at hS
+        simp only [Except.map] at hS
+        injection hS with hS
+        exact ⟨t, rfl, hS⟩
+  obtain ⟨t, hc, hid⟩ := hc
+  obtain ⟨L1, hs, hrest⟩ := afterTopK_spec_fix_on h ha hb P r _ t hc
+  refine ⟨L1, hs, ?_⟩
+  intro hrg hg hsh hsc hsm
+  obtain ⟨idx, y, f, x, hy, hyid, hyv, hf, hpre, hx, hxid⟩ := hrest hrg hg hsh hsc hsm
+  have hym : y ∈ mkTokens logits := hmem y (List.mem_of_getElem? hy)
+  have := mkTokens_mem logits y hym
+  rw [hyid, hid] at this
+  exact ⟨⟨y.val, this, hyv⟩, f, hf, hpre, x, List.mem_of_getElem? hx, by rw [hxid, hid]⟩
+
+/-- non-vacuity: a top-k stage that orders the two EQUAL logits the other way round than the model's
+    heap (ids 0 before 3) is still a correct top-k, so the theorem applies to it; the two stages return
+    different ids for the same number — which is exactly the part left to the reproducibility monitors -/
+example :
+    let ts : List (Tok X) := mkTokens [X.fin 3, .ninf, .fin 1, .fin 3]
+    let other : List (Tok X) → List (Tok X) := fun _ => [⟨0, .fin 3⟩, ⟨3, .fin 3⟩]
+    topK X.ops 2 ts = [⟨3, .fin 3⟩, ⟨0, .fin 3⟩] ∧
+    (SampleWith X.ops other true ⟨.fin 1, 2, .fin 1, .fin 0, false⟩ (.fin 0) [X.fin 3, .ninf, .fin 1, .fin 3]).toOption = some 0 ∧
+    (Sample X.ops true ⟨.fin 1, 2, .fin 1, .fin 0, false⟩ (.fin 0) [X.fin 3, .ninf, .fin 1, .fin 3]).toOption = some 3 := by
+  decide
+
 /-! ### round 7 (after review): an independent specification of top-p -/
 
 /-- the mass of the first `j` entries, accumulated the way the code does (left to right from 0) -/
